@@ -91,11 +91,17 @@ def handleDoc (l : Line) : Option (List String) := do
     match (parse text).bind (fun j => match j with
         | .obj o => if (lookup o (ascii "consolidated_metadata")).isSome then none else some j
         | _ => some j) with
-    | none => pure ["any"]     -- consolidated metadata is not modelled
+    | none =>
+      -- consolidated metadata is not modelled, but re-serialising what was parsed must still be a fixed point
+      let toks := outTokens l.outcome
+      match toks.find? (·.1 == "ser"), toks.find? (·.1 == "ser2") with
+      | some (_, a), some (_, b) => pure [if a == b then "any" else "ser=X ser2=X (re-serialising a parsed document must be a fixed point)"]
+      | _, _ => pure ["any"]
     | some _ =>
       match GroupDoc.ofText text with
       | some d => pure [serLine d.toJ]
       | none => pure ["rej"]
+  | "mut" => none   -- handled before the document is parsed (see `handleMut`)
   | "a2doc" | "g2doc" | "v2to3" =>
     -- V2 documents and the V2 -> V3 conversion: predicted by `Zarrs.MetaV2` (Driver/C13V2.lean)
     DriverC13V2.handleDoc verb text dup
@@ -205,8 +211,20 @@ def handleOp (st : St) (l : Line) : Option (St × List String) := do
     pure (st, [s!"val {b} {b}"])
   | _ => none
 
+/-- `c13 mut …`: a handle changed through its setters, stored and re-opened holds what it was told: the attributes
+as given (the `_zarrs` attribute is removed by the harness), the shape as set, the dimension names as set (V3 arrays;
+V2 arrays and groups have none); without a setter call the stored value stays -/
+def handleMut (l : Line) : Option (List String) := do
+  let kind ← l.get "kind"
+  let attrs ← l.get "attrs"
+  let isArr := kind == "a3" || kind == "a2"
+  let shape := if isArr then (l.get "shape").getD "4,6" else "-"
+  let dims := if kind == "a3" then (l.get "dims").getD "y0,x0" else "none"
+  pure [s!"ok dims={dims} shape={shape} attrs={attrs}"]
+
 def handle (st : St) (l : Line) : Option (St × List String × Option String) :=
   match l.verbs[1]? with
+  | some "mut" => (handleMut l).map (fun a => (st, a, none))
   | some "cfg" => some ({}, ["ok"], none)
   | some "op" => (handleOp st l).map (fun (s, a) => (s, a, none))
   | _ => (handleDoc l).map (fun a => (st, a, none))
